@@ -208,6 +208,25 @@ def scan_trusted(unit):
             out.append({'what': m.group(1).strip(' ('), 'where': origin_str(o), 'text': line.strip()[:160]})
     return out
 
+def _norm_contract(t):
+    t = re.sub(r'//[^\n]*', '', t)
+    t = re.sub(r'\s+', '', t)
+    return t.replace(',ensures', 'ensures').rstrip(',')
+
+def cross_check(tpath, refpath, fn):
+    """None when the contract of external_body `fn` in tpath equals the //@ sig block of the item `fn` in refpath (modulo whitespace, comments,
+    trailing commas); otherwise a short reason"""
+    try:
+        here = open(tpath).read(); ref = open(refpath).read()
+    except OSError as e:
+        return f'cannot be compared ({e}) with'
+    m = re.search(r'fn ' + fn + r'\([^{]*?\)(?:\s*->\s*\(r: [^)]*(?:\([^)]*\)[^)]*)*\))?\s*(requires.*?|ensures.*?)\{\s*unimplemented!\(\)', here, re.S)
+    if not m: return 'is not found next to a CROSS-CHECK line; compared with'
+    k = re.search(r'^//@ item [^\n]*path="(?:[^"]* / )?fn ' + fn + r'"[^\n]*\n(?:(?!//@ sig)[^\n]*\n)*//@ sig\n((?:(?!//@)[^\n]*\n)*)', ref, re.M)
+    if not k: return 'has no item with a //@ sig block in'
+    a, b = _norm_contract(m.group(1)), _norm_contract(k.group(1))
+    return None if a == b else 'differs from the contract proved in'
+
 class UnitResult:
     pass
 
@@ -226,6 +245,11 @@ def verify_unit(tpath, tier):
     except Exception as e:
         r.undecided.append({'reason': f'extract crashed: {e!r}'})
         return r
+    # cross-unit contracts: a line `// CROSS-CHECK <template> <fn>` in a template says that the external_body fn <fn> of THIS template restates,
+    # verbatim, the contract that <template> proves for the real <fn>; a restatement that drifted is undecided, never trusted
+    for m in re.finditer(r'^// CROSS-CHECK (\S+) (\w+)\s*$', open(tpath).read(), re.M):
+        why = cross_check(tpath, os.path.join(VERIF, m.group(1)), m.group(2))
+        if why: r.undecided.append({'reason': f'cross-unit contract of {m.group(2)} restated in {r.template} {why} {m.group(1)}'}); return r
     os.makedirs(os.path.join(BUILD, 'verus'), exist_ok=True)
     out_path = os.path.join(BUILD, 'verus', r.name.replace('.', '_') + '.rs')
     open(out_path, 'w').write(u.text)
